@@ -484,11 +484,17 @@ def valgrind_run(plan_text):
                 pass
 
 # ---------------------------------------------------------------------------------------------- check
+# runs per quick check: roughly what 16 workers finish in 25-40 s on the reference sandbox
+QUICK_RUNS = {"C01": 800, "C02": 1000, "C03": 1200, "C04": 600, "C05": 2000, "C06": 1200, "C07": 2000, "C08": 1600, "C09": 1400, "C11": 1800,
+              "C12": 1800, "C13": 4000, "C14": 1600, "C16": 1500, "C17": 1200, "C18": 250, "C19": 1000, "C20": 1500}
+
 def check(prop, tier):
     t0 = time.time()
     spec = PROPS[prop]
     base_seed = int(os.environ.get("VERIF_SEED", "1"))
-    budget = float(os.environ.get("VERIF_BUDGET_S", spec.get("quick_s", 40) if tier == "quick" else spec.get("thorough_s", 900)))
+    # quick: a fixed number of runs (job i is a pure function of VERIF_SEED and i, so the explored set does not depend on
+    # how fast or busy the machine is), with a generous wall-clock cap; thorough: as many runs as fit the time budget
+    budget = float(os.environ.get("VERIF_BUDGET_S", spec.get("quick_cap_s", 300) if tier == "quick" else spec.get("thorough_s", 900)))
     arms = spec["arms"]                      # list of dict(profile, faults, flavour, weight, opts)
     SLOW_UNWIND[0] = False
     flavours = sorted({a["flavour"] for a in arms} | set(spec.get("twin_flavours", [])))
@@ -530,7 +536,7 @@ def check(prop, tier):
              "faults": {}, "probes": {}, "by_arm": {}, "foreign": {}}
     plan_hashes_nontrivial = set(); sigs = set(); samples = []
     found = {}     # (prop, cls) -> dict(detail, job)
-    maxruns = int(os.environ.get("VERIF_MAXRUNS", "0"))
+    maxruns = int(os.environ.get("VERIF_MAXRUNS", str(QUICK_RUNS.get(prop, 800)) if tier == "quick" else "0"))
     deadline = time.time() + budget   # the budget is for runs; building is not counted
     recheck_q = queue.Queue()
 
@@ -595,8 +601,8 @@ def check(prop, tier):
                             plan_hashes_nontrivial.add(res["plan_hash"])
                             for s in res.get("sigs", []):
                                 sigs.add(s)
-                            if len(samples) < 4:
-                                samples.append({"profile": a["profile"], "seed": seed, "faults": a["faults"], "flavour": fl})
+                            samples.append({"job": i, "profile": a["profile"], "seed": seed, "faults": a["faults"], "flavour": fl})
+                            samples.sort(key=lambda s: s["job"]); del samples[4:]
                         if stats["runs"] % 12 == 0 and not res.get("violations"):
                             recheck_q.put((fl, a["profile"], seed, opts, res["transcript_hash"]))
                     for (p, c, d) in viols:
